@@ -319,3 +319,41 @@ Proof.
   intros Hn H Hdone. destruct (conc_run_spec n sched _ _ _ _ H) as (done & HP & ->).
   rewrite Hdone, app_nil_r in HP. fold (hist_run n done). symmetry. apply hist_run_perm; assumption.
 Qed.
+
+(* ------------------------------------------------------------ the property's accuracy clause, end to end *)
+
+Lemma index_total n v : v <= max_value n -> exists i, value_to_index n v = Some i.
+Proof.
+  intros H. unfold value_to_index. destruct (v <? cutoff_value); [eauto|].
+  destruct (max_value n <? v) eqn:E; [apply N.ltb_lt in E; lia|eauto].
+Qed.
+
+(* x = a/d >= 1/32 recorded c times (as the integer floor (1024 x)): the closed distribution reports a bucket
+   with at least c occurrences at a value m/1024 with |m/1024 - x| <= x/16 *)
+Theorem observation_within_16th n rs a d c : 5 <= n -> 0 < d -> d <= 32 * a -> 0 < c ->
+  1024 * a / d <= max_value n -> In (1024 * a / d, c) rs ->
+  (forall i, count_in n i rs < 2 ^ 64) ->
+  exists m k, In (m, k) (drain_mids n (hist_run n rs)) /\ c <= k /\
+              16 * (m * d) <= 17 * (1024 * a) /\ 15 * (1024 * a) <= 16 * (m * d).
+Proof.
+  intros Hn Hd Hx Hc Hmax Hin Hb.
+  destruct (index_total n _ Hmax) as [i Hi].
+  destruct (recorded_is_reported n rs _ c i Hn Hin Hc Hi (Hb i)) as [H1 H2].
+  exists (bucket_mid n i), (count_in n i rs). split; [assumption|]. split; [assumption|].
+  apply reported_within_16th; assumption.
+Qed.
+
+(* x = a/d < 1/32: reported at m/1024 with 0 <= x - m/1024 < 1/1024 *)
+Theorem observation_within_1024th n rs a d c : 5 <= n -> 0 < d -> 32 * a < d -> 0 < c ->
+  In (1024 * a / d, c) rs ->
+  (forall i, count_in n i rs < 2 ^ 64) ->
+  exists m k, In (m, k) (drain_mids n (hist_run n rs)) /\ c <= k /\
+              m * d <= 1024 * a /\ 1024 * a < m * d + d.
+Proof.
+  intros Hn Hd Hx Hc Hin Hb.
+  assert (Hv : 1024 * a / d < 32) by (apply N.div_lt_upper_bound; lia).
+  assert (Hi : value_to_index n (1024 * a / d) = Some (1024 * a / d)) by (apply index_small; assumption).
+  destruct (recorded_is_reported n rs _ c _ Hn Hin Hc Hi (Hb _)) as [H1 H2].
+  exists (bucket_mid n (1024 * a / d)), (count_in n (1024 * a / d) rs). split; [assumption|]. split; [assumption|].
+  apply reported_within_1024th; assumption.
+Qed.
